@@ -306,19 +306,18 @@ def _escapes_without(fi, R, lt, skip_raises, feas, lg):
 
 
 def api_misuse_raises(fi):
-    """Raise statements guarded solely by `not isinstance(<param>, T)` (the properties quantify over well-typed use)."""
+    """Raise statements whose innermost guard is `isinstance(<param>, T)` being false (the properties quantify over
+    well-typed use).  Shape independent: guard clause or else-branch."""
+    from .astutil import guards
+    g = guards(fi.node)
     params = set(fi.params())
     out = []
     for n in walk_no_nested(fi.node):
-        if isinstance(n, ast.If):
-            t = n.test
-            neg = isinstance(t, ast.UnaryOp) and isinstance(t.op, ast.Not)
-            inner = t.operand if neg else None
-            if inner is not None and isinstance(inner, ast.Call) and call_name(inner) == "isinstance" and len(inner.args) == 2 \
-                    and isinstance(inner.args[0], ast.Name):
-                for s in n.body:
-                    if isinstance(s, ast.Raise):
-                        out.append(s)
+        if isinstance(n, ast.Raise) and g.get(id(n)):
+            t, v = g[id(n)][-1]
+            if v is False and isinstance(t, ast.Call) and call_name(t) == "isinstance" and len(t.args) == 2 \
+                    and isinstance(t.args[0], ast.Name) and t.args[0].id in params:
+                out.append(n)
     return out
 
 
@@ -376,11 +375,11 @@ def bytes_path_feasibility(fi):
         for s in stmts:
             for n in ast.walk(s):
                 if hasattr(n, "lineno"):
-                    dead.add(id(n))
+                    dead.add((n.lineno, n.col_offset, type(n).__name__))
     walk(fi.node.body)
     if not dead:
         return None
-    return lambda node: id(node) not in dead
+    return lambda node: (getattr(node, "lineno", -1), getattr(node, "col_offset", -1), type(node).__name__) not in dead
 
 
 def length_guards(repo, fi):
